@@ -15,6 +15,16 @@ pub struct Pair {
     pub b: u64,
 }
 
+/// The `quad` kind: a fixed-size SSZ container of exactly 32 bytes - the size of one chunk (and of `Hash256`), but
+/// four field chunks: its root is `H(H(a,b),H(c,d))`, not its bytes.
+#[derive(Debug, Default, Clone, PartialEq, Encode, Decode, TreeHash, Serialize, Deserialize)]
+pub struct Quad {
+    pub a: u64,
+    pub b: u64,
+    pub c: u64,
+    pub d: u64,
+}
+
 /// The `var` kind: a variable-size element (0..=4 bytes).
 pub type Var = ssz_types::VariableList<u8, typenum::U4>;
 
